@@ -80,7 +80,18 @@ def run_property(prop, tier='quick', seed=0):
         obs, cx.axioms, cross_check=(tier == 'thorough'),
         z3_timeout_ms=z3_to)
     covers = discharge.check_covers(cx.covers, cx.axioms)
-    vac = [c for c in covers if c['result'] == 'unsat']
+    # a vacuous precondition is an error; a dead exit path is not, as long as
+    # every function keeps at least one exit that is not refuted
+    vac = [c for c in covers if c['result'] == 'unsat' and
+           '/cover/pre_satisfiable' in c['name']]
+    byfn = {}
+    for c in covers:
+        if '/cover/exit_reachable' in c['name']:
+            fn = c['name'].split('/cover/')[0]
+            byfn.setdefault(fn, []).append(c['result'])
+    for fn, rs in byfn.items():
+        if all(r == 'unsat' for r in rs):
+            vac.append(dict(name=fn + '/cover/all_exits_unreachable'))
     rc = 0
     if any(r.get('disagreement') for r in results):
         print('CHECKER-ERROR property={} solver disagreement: {}'.format(
